@@ -1707,3 +1707,83 @@ def generate_repr(src_dir):
             "inductive Fmt where\n  | lit (s : String) | floatRule | str | iso | repr\n  deriving DecidableEq, Repr\n\n"
             + "\n\n".join(parts) + "\n\nend Serif.Gen.TD\n")
     return text, errors
+
+
+# ---------------------------------------------------------------------------------------------
+# naming._sanitize_user_name: the pipeline (the regular expressions and str methods are named oracles)
+# ---------------------------------------------------------------------------------------------
+def translate_sanitize(src):
+    """Statement-by-statement translation of `_sanitize_user_name` after `name = name.lower()`.  The primitives are parameters whose
+    defining Python expression is checked literally: `subRuns` = `re.sub(r'[^a-z0-9_]+', '_', ·)`, `strip` = `·.strip('_')`,
+    `isDigit` = `str.isdigit` on the first character, `matchesIndexed` = `re.match(r'^.+__\\d+$', ·)`, `reserved` =
+    `· in _get_reserved_names()`."""
+    tree = ast.parse(src)
+    f = find_func(tree, "_sanitize_user_name")
+    body = [s for s in f.body if not (isinstance(s, ast.Expr) and isinstance(s.value, ast.Constant))]
+    pre = [ast.unparse(s) for s in body[:2]]
+    if pre != ["if not isinstance(name, str):\n    name = str(name)", "name = name.lower()"]:
+        raise TranslateError("_sanitize_user_name: prologue")
+
+    def sx(node):
+        u = ast.unparse(node)
+        if u == "re.sub('[^a-z0-9_]+', '_', name)":
+            return "subRuns name"
+        if u == "sanitized.strip('_')":
+            return "strip sanitized"
+        if u == "'c' + sanitized":
+            return "'c' :: sanitized"
+        if u == "sanitized + '_'":
+            return "sanitized ++ ['_']"
+        raise TranslateError("_sanitize_user_name: expression " + u[:50])
+
+    def cx(node):
+        u = ast.unparse(node)
+        if u == "sanitized == ''":
+            return "sanitized.isEmpty"
+        if u == "sanitized[0].isdigit()":
+            return "(match sanitized with | c :: _ => isDigit c | [] => false)"
+        if u == "re.match('^.+__\\\\d+$', sanitized)":
+            return "matchesIndexed sanitized"
+        if u == "sanitized in _get_reserved_names()":
+            return "reserved sanitized"
+        raise TranslateError("_sanitize_user_name: condition " + u[:50])
+
+    def block(stmts, ind):
+        pad = " " * ind
+        if not stmts:
+            raise TranslateError("_sanitize_user_name: path without return")
+        s, rest = stmts[0], stmts[1:]
+        if isinstance(s, ast.Return):
+            u = ast.unparse(s.value)
+            if u == "None":
+                return pad + "none"
+            if u == "sanitized":
+                return pad + "some sanitized"
+            raise TranslateError("_sanitize_user_name: return " + u)
+        if isinstance(s, ast.Assign) and ast.unparse(s.targets[0]) == "sanitized":
+            return pad + f"let sanitized := {sx(s.value)}\n" + block(rest, ind)
+        if isinstance(s, ast.If) and not s.orelse:
+            if len(s.body) == 1 and isinstance(s.body[0], ast.Return):
+                return pad + f"if {cx(s.test)} then\n" + block(s.body, ind + 2) + "\n" + pad + "else\n" + block(rest, ind + 2)
+            if len(s.body) == 1 and isinstance(s.body[0], ast.Assign) and ast.unparse(s.body[0].targets[0]) == "sanitized":
+                return pad + f"let sanitized := if {cx(s.test)} then {sx(s.body[0].value)} else sanitized\n" + block(rest, ind)
+        raise TranslateError("_sanitize_user_name: statement " + ast.unparse(s)[:50])
+
+    return ["/-- translated from `naming._sanitize_user_name` after `name = name.lower()` (`none` = returns None) -/\n"
+            "def sanitizeUserNameT (subRuns strip : List Char → List Char) (isDigit : Char → Bool)\n"
+            "    (matchesIndexed reserved : List Char → Bool) (name : List Char) : Option (List Char) :=\n" + block(body[2:], 2)]
+
+
+def generate_names(src_dir):
+    """sixth generated file: naming._sanitize_user_name"""
+    parts, errors = [], []
+    try:
+        parts += translate_sanitize(open(os.path.join(src_dir, "naming.py")).read())
+    except Exception as ex:
+        errors.append(("sanitize", f"{type(ex).__name__}: {ex}"))
+        parts.append(f"-- sanitize: not translated ({type(ex).__name__})")
+    text = ("/- GENERATED by harness/py2lean.py from /repo's working tree — do not edit.\n"
+            "   naming._sanitize_user_name, translated; equivalence theorem in Serif/Tie/Sanitize.lean. -/\n"
+            "import Serif.Prelude\n\nset_option linter.unusedVariables false\n\nnamespace Serif.Gen.TN\nopen Serif\n\n"
+            + "\n\n".join(parts) + "\n\nend Serif.Gen.TN\n")
+    return text, errors
